@@ -63,17 +63,20 @@ func (gkg GaloisKeyGenProtocol) GenShare(sk *rlwe.SecretKey, galEl uint64, crp G
 
 	galElInv := ring.ModExp(galEl, ringQ.NthRoot()-1, ringQ.NthRoot())
 
-	// Important
-	shareOut.GaloisElement = galEl
-
 	ringQ.AutomorphismNTT(sk.Value.Q, galElInv, gkg.skOut.Q)
 
 	if levelP > -1 {
 		gkg.params.RingP().AtLevel(levelP).AutomorphismNTT(sk.Value.P, galElInv, gkg.skOut.P)
 	}
 
-	return gkg.EvaluationKeyGenProtocol.GenShare(sk, &rlwe.SecretKey{Value: gkg.skOut}, crp.EvaluationKeyGenCRP, &shareOut.EvaluationKeyGenShare)
+	if err = gkg.EvaluationKeyGenProtocol.GenShare(sk, &rlwe.SecretKey{Value: gkg.skOut}, crp.EvaluationKeyGenCRP, &shareOut.EvaluationKeyGenShare); err != nil {
+		return
+	}
 
+	// Important: the share is tagged only once it has been generated (a refused call leaves shareOut untouched).
+	shareOut.GaloisElement = galEl
+
+	return
 }
 
 // AggregateShares computes share3 = share1 + share2.
@@ -83,9 +86,14 @@ func (gkg GaloisKeyGenProtocol) AggregateShares(share1, share2 GaloisKeyGenShare
 		return fmt.Errorf("cannot aggregate: GaloisKeyGenShares do not share the same GaloisElement: %d != %d", share1.GaloisElement, share2.GaloisElement)
 	}
 
+	if err = gkg.EvaluationKeyGenProtocol.AggregateShares(share1.EvaluationKeyGenShare, share2.EvaluationKeyGenShare, &share3.EvaluationKeyGenShare); err != nil {
+		return
+	}
+
+	// The receiver is tagged only once the aggregation has been accepted (a refused call leaves share3 untouched).
 	share3.GaloisElement = share1.GaloisElement
 
-	return gkg.EvaluationKeyGenProtocol.AggregateShares(share1.EvaluationKeyGenShare, share2.EvaluationKeyGenShare, &share3.EvaluationKeyGenShare)
+	return
 }
 
 // GenGaloisKey finalizes the GaloisKey Generation and populates the input GaloisKey with the computed collective GaloisKey.
